@@ -718,6 +718,12 @@ class Discharger:
                 if rng[0] == "aggr" and rng[2] and rng[2].split("::")[-1] in ("Range", "RangeTo", "RangeFrom"):
                     kind = rng[2].split("::")[-1]
                     bound = rng[4][-1] if kind != "RangeFrom" else rng[4][0]
+                    # release builds: the subtraction is a plain wrapping `Sub` with no checked site of its own; the same
+                    # idioms (I4 prefix of a shrinking cursor, I5 one element consumed since the capture) show that it
+                    # does not wrap, and then the bound is len(slice) minus something
+                    rel = self.plain_prefix_bound(mir, S, s, bound)
+                    if rel is not None and (sym.norm(rel) == base or _same_slice(rel, base)):
+                        return "index bound is len(captured slice) - len(remaining slice) [- 1] of a cursor that only shrinks (I4/I5, unchecked arithmetic of the release build): within the slice"
                     # bound = (len(X) - something).0 with X the indexed slice itself  => bound <= len(X)
                     if bound[0] == "field" and bound[1][0] == "binop" and bound[1][1] == "SubWithOverflow":
                         root = bound[1]
@@ -739,6 +745,27 @@ class Discharger:
                 return "debug_assert"
             if "todo" in mac and "Todo" in (s.body.impl_self or ""):
                 return "excluded: tree::command::Todo is the documented placeholder handler that panics by design"
+        return None
+
+    def plain_prefix_bound(self, mir, S, s, e):
+        """e = len(as_slice(cur))@capture Sub len(as_slice(cur))@later  [Sub 1]  in unchecked (release) arithmetic, with
+        the idioms that exclude wrap-around: returns the captured slice expression, else None"""
+        if not (isinstance(e, tuple) and e and e[0] == "binop" and e[1] == "Sub"):
+            return None
+        a, b = e[2], e[3]
+        la, lb = is_len_of(a), is_len_of(b)
+        if la is not None and lb is not None and la[0] == "call" and lb[0] == "call" and la[1].endswith("as_slice") and lb[1].endswith("as_slice") and sym.norm(la[3][0]) == sym.norm(lb[3][0]):
+            doms = cfg.dominators(mir)
+            if la[4] in doms.get(lb[4], ()) and la[4] != lb[4] and self.only_shrinks(s.body):
+                return la
+            return None
+        if b[0] == "int" and b[1] == 1 and isinstance(a, tuple) and a and a[0] == "binop" and a[1] == "Sub":
+            inner = self.plain_prefix_bound(mir, S, s, a)
+            if inner is not None:
+                cur = sym.norm(inner[3][0])
+                some_blocks = self.some_edges_of_next(mir, S, cur)
+                if some_blocks and cfg.must_pass_through(mir, inner[4], some_blocks, {s.bi}):
+                    return inner
         return None
 
     def callee_facts(self, conds):
